@@ -15,7 +15,8 @@ def parse_template(tpl, mode='eval'):
     key = (tpl, mode)
     if key not in _cache:
         src = re.sub(r'\$([A-Za-z_][A-Za-z0-9_]*)', r'__MV_\1', tpl)
-        tree = ast.parse(src, mode=mode)
+        from .spelling import canonical
+        tree = canonical(ast.parse(src, mode=mode))
         _cache[key] = tree.body if mode == 'eval' else tree.body[0]
     return _cache[key]
 
